@@ -584,6 +584,17 @@ func wireGrew2(oldLen int, b0, b1 uint8) bool {
 //@   trusted
 //@   ensures fresh(m) && tminv(m)
 
+// verifNewTimeOutManager: the constructor without options establishes the
+// invariant (what the option functions, opaque function values, do to it is the
+// trusted part of the contract above).
+func verifNewTimeOutManager(logger btclog.Logger) (m *TimeoutManager) { return NewTimeOutManager(logger) }
+
+//@ func verifNewTimeOutManager(logger btclog.Logger) (m *TimeoutManager)
+//@   props C20 C07
+//@   unfolds NewTimeOutManager
+//@   noframe
+//@   ensures @C20 fresh(m) && tminv(m) && !m.useStaticTimeout && m.resendTimeout == defaultResendTimeout
+
 //@ func newGoBackNConn(ctx context.Context, cfg *config, loggerPrefix string) (g *GoBackNConn)
 //@   props C07 C09
 //@   modifies events("*")
